@@ -27,6 +27,9 @@ CLAIMS = {
  "C12": ("Generated PROXY v1/v2 headers from an independent encoder pushed through the handler with generated segmentation and allow lists; a recorder, ip matchers and placeholders behind it are compared with the declared (or real) addresses and the payload; the sending side is parsed by an independent parser on a loopback upstream, including the sender->receiver composition. Every header split point is enumerated for fixed addresses.",
          "Independent encoder/parser written from the HAProxy specification; github.com/mastercactapus/proxyprotocol is the library under the handler (its refusal of TLVs is accepted as fail-closed).",
          "property-based testing (rapid) + enumeration of split points; independent encoder/parser as reference"),
+ "C16": ("Generated configurations and client negotiation scripts driven through the real SOCKS5 handler over loopback sockets; a safety oracle derived from the documented meaning of the configuration (enabled commands, usable credential pairs) decides whether an outbound connection, a success reply or a listener may appear at all.",
+         "things-go/go-socks5 is the library under the handler; the loopback target listener and /proc/self/net/udp are the observers; timing only bounds how long replies are awaited (never a verdict).",
+         "property-based testing (rapid) with a reference predicate over (configuration, session)"),
 }
 NOT_YET = "check not built yet in this session (planned, see DESIGN.md); not claimed until it is"
 
